@@ -1241,6 +1241,12 @@ func c14Escape(c *Ctx) {
 	}
 	var sites []site
 	var callArgs []callArg
+	viaParent := func(ca callArg) callArg {
+		if strings.HasPrefix(ca.status, "param@parent:") {
+			ca.caller, ca.status = ca.caller.Parent(), "param:"+strings.TrimPrefix(ca.status, "param@parent:")
+		}
+		return ca
+	}
 	fieldStores := map[string][]callArg{} // helper-object field -> what is stored there
 	nCalls, nFuncs := 0, 0
 	isApplyClosure := func(fn *ssa.Function) bool {
@@ -1265,6 +1271,19 @@ func c14Escape(c *Ctx) {
 			}
 			if t.Op == "param" && !isApplyClosure(fn) {
 				return "param:" + t.Aux
+			}
+			// a variable captured from the defining function, itself a parameter there (a closure kept in a local
+			// table): the obligation is the defining function's
+			fv := t
+			if t.Op == "init" && t.Aux == "" && t.Args[0].Op == "free" {
+				fv = t.Args[0] // captured by reference: the parameter's spill slot, never stored to by the closure
+			}
+			if fv.Op == "free" && fn.Parent() != nil && fn.Parent().Parent() == nil && !storesThroughFreeVar(fn.Parent(), fv.Aux) {
+				for _, prm := range fn.Parent().Params {
+					if prm.Name() == fv.Aux {
+						return "param@parent:" + fv.Aux
+					}
+				}
 			}
 			if t.Op == "fld" && t.Args[0].Op == "param" && !isApplyClosure(fn) {
 				return "param:" + t.Args[0].Aux + "#" + t.Aux // travels in a by-value parameter bundle
@@ -1334,6 +1353,9 @@ func c14Escape(c *Ctx) {
 							if strings.HasPrefix(st, "param:") || strings.HasPrefix(st, "field:") {
 								s.param = st
 							}
+							if strings.HasPrefix(st, "param@parent:") {
+								s.fn, s.param = fn.Parent(), "param:"+strings.TrimPrefix(st, "param@parent:")
+							}
 							sites = append(sites, s)
 						}
 						walk(a, declared)
@@ -1371,7 +1393,7 @@ func c14Escape(c *Ctx) {
 								for fi, sub := range a.Args {
 									if isExecType(sct.Field(fi).Type()) != "" {
 										k, _ := fieldKey(a.Typ, fi)
-										callArgs = append(callArgs, callArg{caller: fn, callee: eFn, arg: ai + off, sub: k, status: statusOf(p, sub), pos: c.P.Pos(e.Instr.Pos())})
+										callArgs = append(callArgs, viaParent(callArg{caller: fn, callee: eFn, arg: ai + off, sub: k, status: statusOf(p, sub), pos: c.P.Pos(e.Instr.Pos())}))
 									}
 								}
 							}
@@ -1380,7 +1402,7 @@ func c14Escape(c *Ctx) {
 						if isExecType(params[ai+off].Type()) == "" {
 							continue
 						}
-						callArgs = append(callArgs, callArg{caller: fn, callee: eFn, arg: ai + off, status: statusOf(p, a), pos: c.P.Pos(e.Instr.Pos())})
+						callArgs = append(callArgs, viaParent(callArg{caller: fn, callee: eFn, arg: ai + off, status: statusOf(p, a), pos: c.P.Pos(e.Instr.Pos())}))
 					}
 				}
 			}
@@ -1480,6 +1502,38 @@ func isHelperObjectField(p *Program, key string) bool {
 		return false
 	}
 	return true
+}
+
+// storesThroughFreeVar: the function or one of its closures assigns the captured variable `name` after its
+// initialisation from the parameter (then the captured value is not the parameter any more).
+func storesThroughFreeVar(parent *ssa.Function, name string) bool {
+	n := 0
+	var visit func(f *ssa.Function)
+	visit = func(f *ssa.Function) {
+		for _, b := range f.Blocks {
+			for _, in := range b.Instrs {
+				st, isStore := in.(*ssa.Store)
+				if !isStore {
+					continue
+				}
+				switch a := st.Addr.(type) {
+				case *ssa.Alloc:
+					if a.Comment == name && f == parent {
+						n++
+					}
+				case *ssa.FreeVar:
+					if a.Name() == name {
+						n += 2
+					}
+				}
+			}
+		}
+		for _, a := range f.AnonFuncs {
+			visit(a)
+		}
+	}
+	visit(parent)
+	return n > 1 // one store: the spill of the parameter itself
 }
 
 // returnsPolicyResult: the function type yields a *common.PolicyResult: the library's own chain functions do, no
